@@ -10,6 +10,9 @@ CFG = {'assumptions': ["64*len(words) < 2^31 (Go's int32 positions cannot overfl
         'bitmap.IndexSelect32R64': 'bitmap.IndexSelect32R64',
         'bitmap.NextOne/Rank64': 'bitmap.NextOne(ws, p, 64*len) beside bitmap.Select32 of bitmap.Rank64(ws, '
                                  'IndexRank64(ws,true), p) (or -1 when that rank is the total)',
+        'bitmap.PrevOne/Select32': 'bitmap.IndexSelect32 + bitmap.Select32, then bitmap.PrevOne(ws, 0, a) up to the '
+                                   'selected bit',
+        'bitmap.PrevOne/Select32R64': 'bitmap.IndexSelect32R64 + bitmap.Select32R64, then bitmap.PrevOne(ws, 0, a)',
         'bitmap.Rank128/Select32R64': 'bitmap.IndexSelect32R64 + bitmap.Select32R64, then bitmap.IndexRank128 + '
                                       'bitmap.Rank128 at the selected position',
         'bitmap.Rank64/Select32': 'bitmap.IndexSelect32 + bitmap.Select32, then bitmap.IndexRank64 + bitmap.Rank64 at '
@@ -51,4 +54,6 @@ CFG = {'assumptions': ["64*len(words) < 2^31 (Go's int32 positions cannot overfl
          'the first word boundary after the last 1-bit (expected -1, key nfrom/none). Whole-bitmap sweeps against '
          'ToArray (one case = ToArray(words) and select(i) for every i): empty / all-zero / all-ones bitmaps, every '
          'random bitmap of at most 6 words, one in 8 of the others, the sparse large bitmaps; non-trivial with at '
-         'least 2 words and 33 1-bits, key = (checkpoints, words)'}
+         'least 2 words and 33 1-bits, key = (checkpoints, words). Select against PrevOne: every rank(select(i)) case '
+         'is also run as a = select(i) followed by PrevOne(0, a) (expected select(i-1), -1 for i = 0; key = distance '
+         'in words to the previous 1-bit and byte of the selected bit)'}
